@@ -741,6 +741,25 @@ void gen_c13(Gen &g) {
     p.tasks.push_back(t);
     return;
   }
+  if (r.chance(1, 150)) {
+    // a chunk size beyond 16 bits and enough code to reach and pass its first boundaries
+    long c = r.coin() ? r.range(65537, 70000) : r.range(70001, 180000);
+    t.ops.push_back(mk_create(g, 0, r.coin() ? -1 : 2 * c + 4000));
+    Op ch = g.mk(OP_CHUNK, 0);
+    ch.c = c;
+    t.ops.push_back(ch);
+    p.world.step_budget = 2000000000L;
+    long lines_left = (c + r.range(100, c)) / 5;
+    while (lines_left > 0) {
+      Op b = g.mk(OP_ASM, 0);
+      long n = std::min<long>(lines_left, r.range(2000, 9000));
+      b.lines = gen_program(r, (int)n, 0, -1);
+      lines_left -= n;
+      t.ops.push_back(b);
+    }
+    p.tasks.push_back(t);
+    return;
+  }
   HistCfg cfg;
   cfg.w_asm = 55;
   cfg.w_count = 7;
@@ -1016,6 +1035,14 @@ void gen_c12(Gen &g) {
         // setter restarts it with asm_set_offset(0))
         Op a = g.mk(OP_ASM, slot);
         a.lines = gen_program(r, (int)r.range(0, 3), 0, (int)r.below(3));
+        t.ops.push_back(a);
+        continue;
+      }
+      if (w == 4 && r.chance(1, 2)) {
+        // a counting call (also with a boundary below 2, which only the API can pass): the settings are not its business
+        Op a = g.mk(OP_COUNT, slot);
+        a.lines = gen_program(r, (int)r.range(0, 4), 0, r.chance(1, 6) ? 1 : -1);
+        a.c = r.chance(1, 2) ? r.range(-2, 1) : r.range(2, 40);
         t.ops.push_back(a);
         continue;
       }
